@@ -6,8 +6,22 @@ plus a ticket-key rotator thread and a CRL-cache churn thread.  Oracles:
       tsan:<kind>:<funcA>|<funcB> by the unordered pair of innermost library functions of the two stacks;
   (2) every handshake with valid credentials completes, delivered == sent;
   (3) every resumption / refused resumption is explainable sequentially, per credential;
-  (4) the run finishes (watchdog -> gdb stacks -> re-run once -> c20:deadlock).
-The history (one JSONL record per operation, call/return stamps from one global counter) is checked here."""
+  (4) the run finishes: a progress watchdog (process CPU time stands still for 20 s) or a generous wall-clock
+      deadline -> `gdb -batch -ex "thread apply all bt"` -> c20:deadlock at once when every worker waits in
+      psLockMutex, otherwise re-run once and c20:deadlock only if the watchdog fires again (else inconclusive).
+The history (one JSONL record per operation, call/return stamps from one global counter) is checked here.
+
+Notes:
+  * TSAN_OPTIONS uses history_size=7 (not 4): with 4 roughly every third report loses its second stack
+    ("failed to restore the stack"), which makes the function-pair key unstable.  Reports that still lose it are
+    folded into a complete report on the same function when one exists.
+  * vflib.tsan_reports() expects clang's frame format ("#0 0x.. in fn file"); gcc's libtsan prints
+    "#0 fn file:line (module+0x..)" and compiles crypto/ and core/ with relative paths, so the same key format
+    (tsan:<kind>:<fnA>|<fnB>) is produced by tsan_keys() below.
+  * A thorough run additionally drives the same workload under valgrind --tool=helgrind (prod build, 20 short
+    runs); those reports are keyed helgrind:<kind>:<fnA>|<fnB>.
+  * --replay: "seed=<n>,threads=<t>,ops=<k>" is re-run 12 times (races vary from run to run).
+  * VERIF_C20_RUNS=<n> (development aid) truncates the run plan."""
 import glob, hashlib, json, os, re, shutil, subprocess, sys, time
 import vflib
 
@@ -585,9 +599,12 @@ def run(ctx):
         nthreads_seen.add(r.threads)
         res.stats["run_wall_max_s"] = max(res.stats.get("run_wall_max_s", 0), int(r.wall + 0.5))
         res.add_stat("threads_total", r.threads + 2)
+        before = sum(v["count"] for v in res.viol.values())
         n = check_history(h, res, r.replay, pairs, samples)
         if n == 0:
             res.incon.append("run %s observed no overlapping operations" % r.replay)
+        elif not ctx.keep and before == sum(v["count"] for v in res.viol.values()):
+            shutil.rmtree(r.dir, ignore_errors=True)    # keep only the histories of runs an oracle objected to (disk)
     # a report whose second stack was lost is folded into a complete report on the same function when there is one
     for key, (exc, replay, idxs) in incomplete.items():
         fn = [x for x in key.split(":", 2)[2].split("|") if x != "?"]
@@ -604,7 +621,6 @@ def run(ctx):
     res.add_stat("tsan_reports_distinct", len(tsan_by_key))
 
     # ---- thorough: the same workload under helgrind on a prod build
-    helgrind_note = None
     if ctx.thorough and not ctx.replay and shutil.which("valgrind"):
         hb = vflib.compile_harness("prod", "c20", ["checks/c20_threads.c"])
         hruns = [Run(5000 + i, derive(ctx.seed, 5000 + i), 4, 12, outdir) for i in range(20)]
